@@ -23,6 +23,7 @@ fn ep(k: usize) -> UDPEndpoint {
         4 => UDPEndpoint::new(Some("10.0.0.9".into()), "224.0.0.1".into(), 3400),
         6 => UDPEndpoint::new(Some("2001:db8::1".into()), "ff3e::1".into(), 3400),
         7 => UDPEndpoint::new(Some("2001:db8::2".into()), "ff3e::1".into(), 3400),
+        8 => UDPEndpoint::new(Some("10.0.0.1".into()), "224.0.0.1".into(), 3401),
         _ => UDPEndpoint::new(None, "224.0.0.1".into(), 3401),
     }
 }
@@ -122,7 +123,7 @@ fn main() {
     let prop = Property {
         id: "C18",
         level: "exploration",
-        rule: "(isolation) 2-4 sessions (distinct TSIs on one endpoint, equal TSIs on distinct endpoints, with and without source address, endpoints differing only by source or port): ALL interleavings of their packet streams when the total is small, seeded merges otherwise; the per-session projection of the writer log must equal the log of the session pushed alone and carry the session's own endpoint and TSI; (filter) ALL sequences of {add, remove, add-all, remove-all} over 4 endpoints (2 groups x source/no source) x 2 TSIs and {set_tsi_filtering(false), set_tsi_filtering(true)} up to depth d (3 quick, 4 thorough; 24 operations), each followed by 8 probe packets, against a counter-map reference filter; (listeners) random scripts of data / close-session packets, cleanups after real sleeps, listeners added and removed mid-run, receiver dropped at a random point, judged by a per-(listener, session) automaton with the call in progress recorded for every event, (listener_registration) up to six listeners registered and removed in any order: what a listener registered during calls [a, r) sees must equal what the listener registered throughout saw during those calls; plus an expiry-race stress (hundreds of sessions around a 2 ms timeout, cleanup in a tight loop); a case is one batch, non-trivial when callbacks were observed; distinct = batch parameters",
+        rule: "(isolation) 2-4 sessions (distinct TSIs on one endpoint, equal TSIs on distinct endpoints, with and without source address, endpoints differing only by source or port): ALL interleavings of their packet streams when the total is small, seeded merges otherwise; the per-session projection of the writer log must equal the log of the session pushed alone and carry the session's own endpoint and TSI; (filter) ALL sequences of {add, remove, add-all, remove-all} over 4 endpoints (2 groups x source/no source) x 2 TSIs and {set_tsi_filtering(false), set_tsi_filtering(true)} up to depth d (3 quick, 4 thorough; 24 operations), each followed by 12 probe packets (the four endpoints of the operations and two that differ from them by the port only, x 2 TSIs), against a counter-map reference filter; (listeners) random scripts of data / close-session packets, cleanups after real sleeps, listeners added and removed mid-run, receiver dropped at a random point, judged by a per-(listener, session) automaton with the call in progress recorded for every event, (listener_registration) up to six listeners registered and removed in any order: what a listener registered during calls [a, r) sees must equal what the listener registered throughout saw during those calls; plus an expiry-race stress (hundreds of sessions around a 2 ms timeout, cleanup in a tight loop); a case is one batch, non-trivial when callbacks were observed; distinct = batch parameters",
         assumptions: vec![
             "ordering between different sessions' callbacks is free".into(),
             "a session may legitimately expire during any cleanup (loaded machine): only long sleeps (>= 10x the timeout) oblige expiry; the automaton never assumes non-expiry".into(),
@@ -273,7 +274,9 @@ fn main() {
                         }
                     }
                     let mut res = vec![];
-                    for e in 0..4usize {
+                    // the four endpoints of the operations, and two that differ from endpoints 0 / 1 by their PORT only
+                    // (never named by any operation: processed only while filtering is off)
+                    for e in [0usize, 1, 2, 3, 8, 5] {
                         for t in 1..=2u64 {
                             let before = opens.borrow().len();
                             let _ = rx.push(&ep(e), &pp[(t - 1) as usize], util::at(1000));
@@ -315,7 +318,7 @@ fn main() {
                     nprobe += 1;
                     // endpoint with the source wildcarded: 0 -> 1, 2 -> 3
                     let nosrc = if e % 2 == 0 { e + 1 } else { e };
-                    let want = !enabled || bypass.get(&e).copied().unwrap_or(0) > 0 || listen.get(&(e, t)).copied().unwrap_or(0) > 0 || listen.get(&(nosrc, t)).copied().unwrap_or(0) > 0;
+                    let want = if e >= 4 { !enabled } else { !enabled || bypass.get(&e).copied().unwrap_or(0) > 0 || listen.get(&(e, t)).copied().unwrap_or(0) > 0 || listen.get(&(nosrc, t)).copied().unwrap_or(0) > 0 };
                     if processed {
                         accepted += 1;
                     }
@@ -324,7 +327,7 @@ fn main() {
                         cr.violations.push(Violation::new("filter_decision", format!(
                             "after {:?} a packet from {} with TSI {} is {} but the reference filter says {}", ops.iter().map(name).collect::<Vec<_>>(), epname(&ep(e)), t,
                             if processed { "processed" } else { "dropped" }, if want { "processed" } else { "dropped" }))
-                            .with("processed", processed).with("probe_has_source", e % 2 == 0).with("switch_toggled", ops.iter().any(|o| *o >= 24))
+                            .with("processed", processed).with("probe_has_source", e % 2 == 0).with("probe_port_never_listed", e >= 4).with("switch_toggled", ops.iter().any(|o| *o >= 24))
                             .witness(json!({"ops": ops})));
                     }
                 }
